@@ -66,6 +66,7 @@ func propC13(c *Ctx) {
 	t := c.Tables()
 	c.ruleC13(m, t)
 	c.ruleFirstByteTables("C13-KEYWORD-PREFILTER")
+	c.ruleNextDirectiveRecognised("C13-NEXT-DIRECTIVE")
 	a := c.ruleAnalysis(m, map[string]string{}, false)
 	if c.R.Tier == "thorough" {
 		c.thoroughScanner(m, "C13")
@@ -86,6 +87,7 @@ func propC12(c *Ctx) {
 	c.R.Only = func(rule string) bool { return rule == "C08-ANNOTATION-FORMS" }
 	c.ruleC08Scanner(m)
 	c.R.Only = nil
+	c.ruleNextDirectiveRecognised("C12-NEXT-DIRECTIVE")
 	c.ruleFirstByteTables("C12-KEYWORD-PREFILTER") // a Description's Text lexeme must end where the next directive starts
 	if c.R.Tier == "thorough" {
 		c.thoroughScanner(m, "C12")
